@@ -240,6 +240,10 @@ def key_fragments(model):
     m = model.module('DT_In')
     for fi in m.funcs.values():
         for n in [fi.node] + list(own_nodes(fi.node)):
+            if n is not fi.node and isinstance(
+                    n, (ast.FunctionDef, ast.AsyncFunctionDef, ast.Lambda,
+                        ast.ClassDef)):
+                continue        # nested definitions are functions of their own
             for fld in ('body', 'orelse'):
                 lst = getattr(n, fld, None)
                 if not isinstance(lst, list):
@@ -595,66 +599,169 @@ def rule_twins(model):
     return r
 
 
+class _DS(BaseState):
+    def __init__(self, val=None):
+        self.val = val
+
+    def key(self):
+        return self.val
+
+    def copy(self):
+        n = _DS(self.val)
+        n.trace = self.trace
+        return n
+
+
+class _DirDomain(Domain):
+    """The direction word is `word` ('asc', 'desc' or something else)."""
+
+    def __init__(self, word):
+        self.word = word
+
+    def truth(self, e):
+        if isinstance(e, ast.UnaryOp) and isinstance(e.op, ast.Not):
+            v = self.truth(e.operand)
+            return None if v is None else not v
+        if isinstance(e, ast.Compare) and len(e.ops) == 1:
+            for a, b in ((e.left, e.comparators[0]),
+                         (e.comparators[0], e.left)):
+                if isinstance(b, ast.Constant) and b.value in ('asc', 'desc') \
+                        and not isinstance(a, ast.Constant):
+                    if isinstance(e.ops[0], ast.Eq):
+                        return self.word == b.value
+                    if isinstance(e.ops[0], ast.NotEq):
+                        return self.word != b.value
+            c = e.comparators[0]
+            if isinstance(e.ops[0], (ast.In, ast.NotIn)) and \
+                    isinstance(c, (ast.Tuple, ast.List, ast.Set)) and \
+                    all(isinstance(x, ast.Constant) for x in c.elts) and \
+                    {x.value for x in c.elts} <= {'asc', 'desc'}:
+                inn = self.word in {x.value for x in c.elts}
+                return inn if isinstance(e.ops[0], ast.In) else not inn
+        return None
+
+    def branch(self, test, st):
+        v = self.truth(test)
+        if v is None:
+            return [(True, st), (False, st)]
+        return [(v, st)]
+
+    def raises(self, node, st):
+        return []
+
+    @staticmethod
+    def _const(v):
+        if isinstance(v, ast.UnaryOp) and isinstance(v.operand,
+                                                      ast.Constant) and \
+                isinstance(v.operand.value, int):
+            return v.operand.value * (-1 if isinstance(v.op, ast.USub)
+                                      else 1)
+        if isinstance(v, ast.Constant) and isinstance(v.value, int) and \
+                not isinstance(v.value, bool):
+            return v.value
+        return None
+
+    def effects(self, stmt, st):
+        if isinstance(stmt, ast.Assign):
+            c = self._const(stmt.value)
+            if c is not None:
+                st = st.copy()
+                st.val = c
+        return st
+
+    def on_return(self, node, st):
+        if node.value is not None:
+            c = self._const(node.value)
+            if c is not None:
+                st = st.copy()
+                st.val = c
+        return [], st
+
+
+def _direction_region(model):
+    """(function, statements) deciding the multiplier from the direction
+    word: the statement list from the first test against 'asc'/'desc' to
+    the end of its block."""
+    for fi in model.module('DT_In').funcs.values():
+        for n in [fi.node] + list(own_nodes(fi.node)):
+            if n is not fi.node and isinstance(
+                    n, (ast.FunctionDef, ast.AsyncFunctionDef)):
+                continue
+            for fld in ('body', 'orelse'):
+                lst = getattr(n, fld, None)
+                if not isinstance(lst, list):
+                    continue
+                for i, st in enumerate(lst):
+                    if isinstance(st, ast.If) and any(
+                            isinstance(c, ast.Constant) and
+                            c.value in ('asc', 'desc')
+                            for c in ast.walk(st.test)):
+                        return fi, lst[i:]
+    return None, None
+
+
+def _direction_by_scenarios(model, r):
+    fi, region = _direction_region(model)
+    if fi is None:
+        return False
+    for word, want in (('asc', 1), ('desc', -1), ('sideways', None)):
+        outs = Interp(_DirDomain(word)).block(region, _DS())
+        got = set()
+        for o in outs:
+            if o.kind == 'raise':
+                got.add('raise')
+            else:
+                got.add(o.state.val)
+        r.instance(fi.where, f'direction {word!r}',
+                   ' / '.join(sorted(map(str, got))))
+        if want is None:
+            if got != {'raise'}:
+                r.finding(fi.where, 'direction else branch', 'an unknown '
+                          'direction is accepted silently',
+                          node=region[0], ctx=fi)
+        else:
+            vals = {g for g in got if isinstance(g, int)}
+            if not vals or any((v > 0) != (want > 0) or v == 0
+                               for v in vals) or None in got \
+                    or 'raise' in got:
+                r.finding(fi.where, f'direction {word!r} -> '
+                          f'{sorted(map(str, got))}',
+                          "'asc' must map to a positive and 'desc' to a "
+                          'negative multiplier', node=region[0], ctx=fi)
+    return True
+
+
 def rule_direction(model):
     r = RuleResult('C13.R5', "direction table: 'asc' -> +1, 'desc' -> -1, "
                    'anything else is rejected; the comparator multiplies')
     fi = model.func('DT_In', 'make_sortfunctions')
-    table = {}
-    has_else_raise = False
-    for n in own_nodes(fi.node):
-        if isinstance(n, ast.If) and isinstance(n.test, ast.Compare) and \
-                isinstance(n.test.comparators[0], ast.Constant) and \
-                n.test.comparators[0].value in ('asc', 'desc'):
-            cur = n
-            while True:
-                lit = cur.test.comparators[0].value
-                for s in cur.body:
-                    if isinstance(s, ast.Assign):
-                        ok, v = model.fold(s.value, fi)
-                        if isinstance(s.value, ast.UnaryOp) and \
-                                isinstance(s.value.operand, ast.Constant):
-                            v = s.value.operand.value * (
-                                -1 if isinstance(s.value.op, ast.USub)
-                                else 1)
-                            ok = True
-                        if ok:
-                            table[lit] = v
-                if len(cur.orelse) == 1 and isinstance(cur.orelse[0],
-                                                        ast.If) and \
-                        isinstance(cur.orelse[0].test, ast.Compare):
-                    cur = cur.orelse[0]
-                    continue
-                has_else_raise = any(isinstance(x, ast.Raise)
-                                     for s in cur.orelse
-                                     for x in ast.walk(s))
-                break
-            break
-    if not table:
-        # a dict literal {'asc': k1, 'desc': k2} in the function or at module
-        # level, looked up with .get() and rejected when missing
+    if not _direction_by_scenarios(model, r):
+        # a dict literal {'asc': k1, 'desc': k2} in the function or at
+        # module level, looked up with a subscript / .get() and rejected
+        # when missing
+        table = {}
+        has_else_raise = False
         cands = []
-        for n in ast.walk(fi.module.tree):
-            if isinstance(n, ast.Dict) and all(
-                    isinstance(k, ast.Constant) for k in n.keys) and \
-                    {k.value for k in n.keys} == {'asc', 'desc'}:
+        for vals in fi.module.globals.values():
+            cands += [v for v in vals if isinstance(v, ast.Dict)]
+        for n in own_nodes(fi.node):
+            if isinstance(n, ast.Dict):
                 cands.append(n)
+        cands = [n for n in cands if all(
+            isinstance(k, ast.Constant) for k in n.keys) and
+            {k.value for k in n.keys} == {'asc', 'desc'}]
         for dnode in cands:
             for k, v in zip(dnode.keys, dnode.values):
-                if isinstance(v, ast.UnaryOp) and \
-                        isinstance(v.operand, ast.Constant):
-                    table[k.value] = v.operand.value * (
-                        -1 if isinstance(v.op, ast.USub) else 1)
-                elif isinstance(v, ast.Constant):
-                    table[k.value] = v.value
+                c = _DirDomain._const(v)
+                if c is not None:
+                    table[k.value] = c
         if table:
-            # unknown direction: `x is None` / `not in` followed by raise
             for n in own_nodes(fi.node):
                 if isinstance(n, ast.If) and (
                         'is None' in norm(n.test) or
                         'not in' in norm(n.test)) and any(
                         isinstance(x, ast.Raise) for x in n.body):
                     has_else_raise = True
-            # a subscript lookup raises KeyError for unknown directions
             for n in own_nodes(fi.node):
                 if isinstance(n, ast.Try) and any(
                         isinstance(x, ast.Raise) for h in n.handlers
@@ -662,16 +769,17 @@ def rule_direction(model):
                     has_else_raise = has_else_raise or any(
                         'KeyError' in norm(h.type or ast.Name(id=''))
                         for h in n.handlers)
-    r.instance(fi.where, f'table {table}', 'else raises' if has_else_raise
-               else 'else falls through')
-    if not (isinstance(table.get('asc'), int) and table.get('asc') > 0 and
-            isinstance(table.get('desc'), int) and table.get('desc') < 0):
-        r.finding(fi.where, f'direction table {table}', "'asc' must map to "
-                  "a positive and 'desc' to a negative multiplier",
-                  node=fi.node, ctx=fi)
-    if not has_else_raise:
-        r.finding(fi.where, 'direction else branch', 'an unknown direction '
-                  'is accepted silently', node=fi.node, ctx=fi)
+        r.instance(fi.where, f'table {table}', 'else raises'
+                   if has_else_raise else 'else falls through')
+        if not (isinstance(table.get('asc'), int) and table.get('asc') > 0
+                and isinstance(table.get('desc'), int)
+                and table.get('desc') < 0):
+            r.finding(fi.where, f'direction table {table}', "'asc' must "
+                      "map to a positive and 'desc' to a negative "
+                      'multiplier', node=fi.node, ctx=fi)
+        if not has_else_raise:
+            r.finding(fi.where, 'direction else branch', 'an unknown '
+                      'direction is accepted silently', node=fi.node, ctx=fi)
     sb = model.func('DT_In', 'SortBy.__call__')
     mult = any(isinstance(n, ast.Return) and isinstance(n.value, ast.BinOp)
                and isinstance(n.value.op, ast.Mult)
